@@ -37,6 +37,21 @@ CLAIMS.update({
             'sibling-consistency rule + path-sensitive conditions on enumerated MIR paths', '§4 C16'),
 })
 
+CLAIMS.update({
+    'C03': ('other',
+            'Decides the structural clauses of range streaming over all MIR paths of the bound setters, the seek function and the DFS step: bound table and argument order of both raw builders, name-for-name delegation of the 16 wrapper methods, the truth table of the cut-off test over {<,=,>} x bound variant, the three seek endgames (frame contents included), lock-step of DFS stack and key buffer on every path of the seek and of one DFS step, emitted key/value composition, cut-off placement, and empty-key gating.',
+            'Does not decide that the seek positions the DFS correctly for every key of every FST (that depends on runtime node contents); trusts the lexicographic order of byte slices and Iterator::position/unwrap_or semantics.',
+            'path-sensitive symbolic reconstruction of MIR (loop-carried values havocked) + finite ordering-domain evaluation + balance counting', '§4 C03'),
+    'C04': ('other',
+            'Decides the structural clauses of automaton search: the automaton state is threaded synchronously with node and output in every frame pushed by the seek and by the DFS step; the byte fed to accept is the byte appended to the key buffer; a key is emitted only under "node final and is_match(post-accept state)"; can_match is asked only about the resumed frame and only prunes; will_always_match is never consulted; the empty key uses start(); the reported state is the post-accept state; seek keeps stack and key buffer in lock step on every exit.',
+            'Does not decide "exactly the accepted keys" for all automata; the Automaton contract of the property is assumed. The bound handling shared with range streams is decided under C03.',
+            'path-sensitive symbolic reconstruction of MIR with reaching definitions over access paths (pre/post-update values of loop-carried state)', '§4 C04'),
+    'C05': ('other',
+            'Decides the structural clauses of the four set-operation streams: slot linearity (every slot taken is refilled or parked exactly once on every path), emit predicates (intersection: counter = number of input streams incl. exhausted ones; symmetric difference: odd; union: always; counter init/step), reverse (key, value) heap order and the ==/<= conditional pops, one (index, value) entry per popped slot taken from that slot, difference reporting index 0, the op<->predicate table of is_disjoint/is_subset/is_superset, and wrapper delegation incl. zero outputs for sets.',
+            'Does not decide equality with set theory for all tuples of streams as an observation; assumes input streams are strictly increasing and BinaryHeap is a max-heap.',
+            'path-sensitive slot/def-use tracking over MIR + finite predicate domains + delegation rules', '§4 C05'),
+})
+
 NOT_APPLICABLE = {
     'C17': 'Acceptance is a property of a DFA constructed at run time from the query; no clause has a structural counterpart that a sound static rule within reach could decide (DESIGN.md §6).',
 }
